@@ -40,7 +40,11 @@ use std::sync::{Arc, Mutex};
 
 const PROP: &str = "C05";
 const ENUM_WINDOW: u64 = 2000;
-const ENUM_MAX_COST: u64 = 100_000;
+/// largest cost for which every split point is tried (overridable with --enum-max-cost)
+static ENUM_MAX: std::sync::atomic::AtomicU64 = std::sync::atomic::AtomicU64::new(20_000);
+const GRID_MAX_COST: u64 = 2_500_000;
+const GRID_POINTS: u64 = 2000;
+const GRID_UNITS: u64 = 8;
 const MAX_CHUNK_CALLS: usize = 20_000;
 
 // ------------------------------------------------------------------ scenario
@@ -396,11 +400,30 @@ struct Ctx {
     il: Fnv,
     states: std::collections::BTreeSet<u64>,
 }
+
+/// Violation classes that the caller lists as known findings (`--tolerate REGEX`, full match;
+/// the orchestrator takes them from /verif/known_findings.json only). They are counted as
+/// probes `known:<class>` instead of ending the run, so that one known defect cannot hide
+/// a different violation later in the same run.
+static TOLERATE: std::sync::OnceLock<Vec<regex::Regex>> = std::sync::OnceLock::new();
+
+fn tolerated(class: &str) -> bool {
+    TOLERATE
+        .get()
+        .map(|v| v.iter().any(|r| r.is_match(class)))
+        .unwrap_or(false)
+}
+
 impl Ctx {
     fn ev(&mut self, s: &str) {
         self.log.write_str(s);
     }
     fn viol(&mut self, class: &str, detail: String) {
+        if tolerated(class) {
+            self.res.probes.inc(&format!("known:{class}"));
+            self.ev(&format!("known finding {class}"));
+            return;
+        }
         if self.res.violation.is_none() {
             self.res.violation = Some(Violation {
                 property: PROP.into(),
@@ -491,9 +514,29 @@ fn check_against_ref(
     desc: &str,
 ) {
     if !got.same_as(&rf.verdict) {
+        // class = kind of difference + API path + (reference kind -> observed kind) + a marker
+        // for the two recognisable symptoms, so that a known finding can be matched narrowly
         let class = match (&rf.verdict, got) {
-            (Verdict::Ok(a), Verdict::Ok(b)) if a != b => format!("{class_prefix}cycles_differ:{what}"),
-            _ => format!("{class_prefix}verdict_differs:{what}"),
+            (Verdict::Ok(a), Verdict::Ok(b)) => {
+                let delta = a.abs_diff(*b);
+                let m = if delta % 100_000 == 0 {
+                    "multiple_of_vm_swap_cost"
+                } else {
+                    "other"
+                };
+                format!("{class_prefix}cycles_differ:{what}:{m}")
+            }
+            _ => {
+                let marker = match got {
+                    Verdict::Err { detail, .. } if detail.contains("deadlock") => ":deadlock",
+                    _ => "",
+                };
+                format!(
+                    "{class_prefix}verdict_differs:{what}:{}->{}{marker}",
+                    rf.verdict.kind(),
+                    got.kind()
+                )
+            }
         };
         cx.viol(
             &class,
@@ -528,6 +571,7 @@ fn exec_chunks(
     let mut interrupted = false;
     let mut last_sig: Option<(usize, u64, u64)> = None;
     let mut stalled = 0u32;
+    let mut used_complete = false;
     let mut i = 0usize;
     let final_verdict: Verdict = loop {
         let (budget, finishing) = if i < budgets.len() {
@@ -540,6 +584,7 @@ fn exec_chunks(
             cx.il.write_u64(0xC0);
             cx.il.write_u64(complete_budget);
             cx.res.steps += 1;
+            used_complete = true;
             let r = guarded(|| verifier.complete(st, complete_budget));
             match r {
                 Ok(r) => break verdict_of(&r),
@@ -657,8 +702,10 @@ fn exec_chunks(
         cx.res.nontrivial = true;
     }
     if finish == "complete" {
-        if !interrupted {
-            // completed inside the listed budgets: plain comparison
+        if !used_complete {
+            // ended inside the listed step budgets, complete() was never called (a chunk may
+            // consume more than its step budget through unchecked syscall charges, so budgets
+            // summing to less than the cost can be enough): plain comparison
             check_against_ref(cx, "chunks", &final_verdict, rf, "", &desc);
             return;
         }
@@ -748,6 +795,7 @@ struct SigStats {
     stop_noticed: bool,
     while_paused: u64,
     dropped: u64,
+    implicit_suspends: u64,
     log: Vec<(u8, u64)>,
     machine_runs: u64,
 }
@@ -824,6 +872,7 @@ fn run_signals(
         stop_noticed: st.stop_noticed,
         while_paused: st.delivered_while_paused,
         dropped: st.dropped_parent_blocked,
+        implicit_suspends: st.implicit_suspends,
         log: st.log.clone(),
         machine_runs: st.machine_runs,
     };
@@ -882,7 +931,7 @@ fn exec_signals(
             return;
         }
     };
-    cx.res.faults.add("suspend_signal", st.suspends);
+    cx.res.faults.add("suspend_signal", st.suspends + st.implicit_suspends);
     cx.res.faults.add("resume_signal", st.resumes);
     cx.res.faults.add("implicit_resume_at_end_of_schedule", st.implicit_resumes);
     if st.stop_delivered {
@@ -1160,30 +1209,33 @@ fn gen_signal_op(r: &mut Rng, rf: &Reference, env: &Env, pause_ok: bool) -> Op {
         1..=5 => r.urange(1, 4),
         _ => r.urange(3, 10),
     };
+    // events are processed in list order; `at` is the earliest VM cycle for a delivery, and a
+    // paused VM takes the next commands at once. A Resume placed far ahead therefore means
+    // "resume as soon as the VM has actually paused".
     let mut ats: Vec<u64> = (0..npairs).map(|_| r.range(0, span + span / 20)).collect();
     ats.sort_unstable();
     for at in ats {
+        let gap = match r.below(10) {
+            0 => 0,
+            1 => r.range(1, 3000),
+            _ => span,
+        };
         match r.below(12) {
             0 => {
-                // suspend cancelled at the same parked cycle
                 push(&mut events, at, "suspend");
-                push(&mut events, at, "resume");
+                push(&mut events, at, "suspend");
+                push(&mut events, at.saturating_add(gap), "resume");
             }
-            1 => {
+            1 => push(&mut events, at, "resume"),
+            2 => {
+                // suspend, then (once paused) another suspend before the resume
                 push(&mut events, at, "suspend");
-                push(&mut events, at, "suspend");
-                push(&mut events, at, "resume");
-            }
-            2 => push(&mut events, at, "resume"),
-            3 => {
-                // suspend, then (while paused) another suspend before the resume
-                push(&mut events, at, "suspend");
-                push(&mut events, at + 1, "suspend");
-                push(&mut events, at + 1, "resume");
+                push(&mut events, at.saturating_add(span), "suspend");
+                push(&mut events, at.saturating_add(span), "resume");
             }
             _ => {
                 push(&mut events, at, "suspend");
-                push(&mut events, at + 1, "resume");
+                push(&mut events, at.saturating_add(gap), "resume");
             }
         }
     }
@@ -1197,15 +1249,19 @@ fn gen_signal_op(r: &mut Rng, rf: &Reference, env: &Env, pause_ok: bool) -> Op {
                 // below cost: at most one real pause, see the debug_assert in the child task
                 limit = c - 1;
                 pause = false;
-                events.truncate(2);
+                let at = r.range(0, c - 1);
+                events = vec![
+                    SigEvent { at, cmd: "suspend".into() },
+                    SigEvent { at: at.saturating_add(span), cmd: "resume".into() },
+                ];
             }
             _ => {}
         }
     }
     if r.chance(1, 6) {
         let at = r.range(0, span);
-        push(&mut events, at, "stop");
-        events.sort_by_key(|e| e.at);
+        let idx = r.urange(0, events.len());
+        events.insert(idx, SigEvent { at, cmd: "stop".into() });
     }
     Op::Signals {
         limit,
@@ -1233,8 +1289,8 @@ fn pick_program(r: &mut Rng, kind: &str) -> (Program, Vec<Extra>) {
 }
 
 fn gen_scenario(seed: u64, kind: &str) -> Result<Scenario, String> {
-    if kind == "enumerate" {
-        return gen_enumerate(seed);
+    if kind == "enumerate" || kind == "grid" {
+        return gen_enumerate(seed, kind);
     }
     let mut r = Rng::new(seed ^ 0xC05C05 ^ if kind == "signals" { 0x5160 } else { 0 });
     let (program, extras) = pick_program(&mut r, kind);
@@ -1307,7 +1363,9 @@ fn gen_scenario(seed: u64, kind: &str) -> Result<Scenario, String> {
     })
 }
 
-/// every program case small enough to have all its split points enumerated
+/// Program cases for the enumerating kinds, with their measured cost: "enumerate" takes every
+/// split point of the cases with cost <= ENUM_MAX_COST (`--enum-max-cost`), "grid" takes
+/// GRID_POINTS evenly spaced split points of the cases with a larger cost up to GRID_MAX_COST.
 fn enum_cases() -> Vec<(Program, u64)> {
     static CASES: std::sync::OnceLock<Vec<(Program, u64)>> = std::sync::OnceLock::new();
     CASES
@@ -1318,14 +1376,18 @@ fn enum_cases() -> Vec<(Program, u64)> {
                     "spawn_cases" => (1..=19).map(|a| (a, 0, 0)).collect(),
                     "exec_configurable" => (0..corpus::FROM_VARIANTS as u64)
                         .map(|v| (v, 0b0000 | (1 << 8), 2 | (1 << 32)))
-                        .chain([(4, 0b0111 | (1 << 8), 1 | (2 << 32)), (0, 0b0111 | (1 << 8), 1 | (2 << 32))])
+                        .chain([
+                            (4, 0b0111 | (1 << 8), 1 | (2 << 32)),
+                            (0, 0b0111 | (1 << 8), 1 | (2 << 32)),
+                            (7, 0b0111 | (9 << 8), 5 | (4 << 32)),
+                        ])
                         .collect(),
                     "spawn_configurable" => (0..corpus::FROM_VARIANTS as u64).map(|v| (v, 0, 0)).collect(),
                     "load_code_to_stack_then_reuse" => (0..4).map(|v| (v, 0, 0)).collect(),
-                    "spawn_dag" => vec![(1, 1, 1), (2, 2, 2), (3, 3, 4)],
-                    "spawn_io_cycles" => vec![(1, 0, 0), (64, 1, 0)],
+                    "spawn_dag" => vec![(1, 1, 1), (2, 2, 2), (3, 3, 4), (4, 5, 8), (5, 8, 12)],
+                    "spawn_io_cycles" => vec![(1, 0, 0), (64, 1, 0), (1152, 1, 0)],
                     n if KNOWN_INFINITE.contains(&n) => vec![],
-                    "spawn_recursive" | "spawn_create_17_spawn" | "secp_2in2out" => vec![],
+                    "spawn_recursive" | "spawn_create_17_spawn" | "secp_2in2out" | "spawn_saturate_memory" => vec![],
                     _ => vec![(0, 0, 0)],
                 };
                 for vm in vms {
@@ -1340,7 +1402,7 @@ fn enum_cases() -> Vec<(Program, u64)> {
                         let Ok(env) = Env::new(&p, &[]) else { continue };
                         let Ok(rf) = reference(&env) else { continue };
                         if let Some(c) = rf.cost {
-                            if c <= ENUM_MAX_COST && c >= 2 {
+                            if c >= 2 && c <= GRID_MAX_COST {
                                 out.push((p, c));
                             }
                         }
@@ -1352,46 +1414,89 @@ fn enum_cases() -> Vec<(Program, u64)> {
         .clone()
 }
 
-fn enum_units() -> Vec<(usize, u64, u64)> {
-    // (case index, first split point, last split point)
+/// one unit of enumeration = one run: split points first, first+step, ... (count of them)
+#[derive(Clone, Copy)]
+struct Unit {
+    case: usize,
+    first: u64,
+    step: u64,
+    count: u64,
+}
+
+fn enum_units(kind: &str) -> Vec<Unit> {
+    let max_small = ENUM_MAX.load(Ordering::Relaxed);
     let mut units = Vec::new();
     for (i, (_, cost)) in enum_cases().iter().enumerate() {
-        let mut lo = 1;
-        while lo < *cost {
-            let hi = (lo + ENUM_WINDOW - 1).min(cost - 1);
-            units.push((i, lo, hi));
-            lo = hi + 1;
+        let cost = *cost;
+        if kind == "enumerate" {
+            if cost > max_small {
+                continue;
+            }
+            let mut lo = 1;
+            while lo < cost {
+                let hi = (lo + ENUM_WINDOW - 1).min(cost - 1);
+                units.push(Unit { case: i, first: lo, step: 1, count: hi - lo + 1 });
+                lo = hi + 1;
+            }
+        } else {
+            if cost <= max_small {
+                continue;
+            }
+            // GRID_POINTS points spread over 1..cost, dealt round-robin to GRID_UNITS units
+            let points = GRID_POINTS.min(cost - 1);
+            let stride = ((cost - 1) / points).max(1);
+            for u in 0..GRID_UNITS {
+                let first = 1 + u * stride;
+                if first >= cost {
+                    break;
+                }
+                let step = stride * GRID_UNITS;
+                let count = (cost - 1 - first) / step + 1;
+                units.push(Unit { case: i, first, step, count });
+            }
         }
     }
     units
 }
 
-fn gen_enumerate(seed: u64) -> Result<Scenario, String> {
+fn gen_enumerate(seed: u64, kind: &str) -> Result<Scenario, String> {
     let cases = enum_cases();
-    let units = enum_units();
+    let units = enum_units(kind);
     if units.is_empty() {
         return Err("no enumerable cases".into());
     }
-    let (ci, lo, hi) = units[(seed % units.len() as u64) as usize];
-    let (program, cost) = cases[ci].clone();
+    // consecutive seeds visit the units in a scattered but complete order
+    let n = units.len() as u64;
+    let idx = ((seed % n) * 1_000_003) % n;
+    let u = units[idx as usize];
+    let (program, cost) = cases[u.case].clone();
     let pause_ok = has_debug_pause(&program, &[]) && !many_debug_pauses(&program, &[]);
-    let ops = (lo..=hi)
-        .map(|k| Op::Chunks {
-            budgets: vec![k],
-            rebuild: vec![true],
-            finish: "resume_max".into(),
-            complete_budget: 0,
-            pause: pause_ok && k % 2 == 0,
+    let ops = (0..u.count)
+        .map(|i| {
+            let k = u.first + i * u.step;
+            Op::Chunks {
+                budgets: vec![k],
+                rebuild: vec![true],
+                finish: "resume_max".into(),
+                complete_budget: 0,
+                pause: pause_ok && k % 2 == 0,
+            }
         })
         .collect();
     Ok(Scenario {
         engine: "simscript".into(),
         seed,
-        kind: "enumerate".into(),
+        kind: kind.into(),
         program,
         extras: vec![],
         ops,
-        ref_note: format!("cost {cost}, split points {lo}..={hi}"),
+        ref_note: format!(
+            "cost {cost}, split points {}, {}+{}.. ({} of them)",
+            u.first,
+            u.first,
+            u.step,
+            u.count
+        ),
     })
 }
 
@@ -1420,6 +1525,18 @@ fn main() {
     let mode = args.get(1).map(|s| s.as_str()).unwrap_or("");
     install_panic_hook();
     let kind = arg_value(&args, "--kind").unwrap_or_else(|| "random".into());
+    let mut tol = Vec::new();
+    for (i, a) in args.iter().enumerate() {
+        if a == "--tolerate" {
+            if let Some(r) = args.get(i + 1) {
+                tol.push(regex::Regex::new(&format!("^(?:{r})$")).expect("--tolerate regex"));
+            }
+        }
+    }
+    let _ = TOLERATE.set(tol);
+    if let Some(m) = arg_value(&args, "--enum-max-cost") {
+        ENUM_MAX.store(m.parse().expect("--enum-max-cost"), Ordering::Relaxed);
+    }
     let code = match mode {
         "gen" => {
             let seed: u64 = arg_value(&args, "--seed").unwrap().parse().unwrap();
@@ -1445,7 +1562,7 @@ fn main() {
             let (lo, hi) = parse_seed_range(&arg_value(&args, "--seeds").unwrap());
             let threads: usize = arg_value(&args, "--threads").map(|s| s.parse().unwrap()).unwrap_or(16);
             let mut batch = BatchResult::new("simscript");
-            if kind == "enumerate" {
+            if kind == "enumerate" || kind == "grid" {
                 let _ = enum_cases(); // measured once, before the workers start
             }
             let errs = Mutex::new(Vec::new());
@@ -1479,6 +1596,26 @@ fn main() {
             }
             batch.finish();
             println!("{}", serde_json::to_string(&batch).unwrap());
+            0
+        }
+        "hashes" => {
+            // determinism self-check support: per-seed event-log hashes
+            let (lo, hi) = parse_seed_range(&arg_value(&args, "--seeds").unwrap());
+            let threads: usize = arg_value(&args, "--threads").map(|s| s.parse().unwrap()).unwrap_or(16);
+            let mut out = Vec::new();
+            parallel_seeds(
+                lo,
+                hi,
+                threads,
+                |seed| gen_scenario(seed, &kind).map(|sc| exec(&sc)).ok(),
+                |seed, r| {
+                    out.push(match r {
+                        Some(r) => serde_json::json!([seed, r.log_hash, r.interleaving, r.steps, r.harness_error]),
+                        None => serde_json::json!([seed, null]),
+                    })
+                },
+            );
+            println!("{}", serde_json::json!({ "hashes": out }));
             0
         }
         "corpus" => {
@@ -1550,12 +1687,18 @@ fn main() {
             0
         }
         "enum-info" => {
-            let units = enum_units();
             let cases = enum_cases();
+            let max_small = ENUM_MAX.load(Ordering::Relaxed);
+            let e = enum_units("enumerate");
+            let g = enum_units("grid");
             println!(
                 "{}",
-                serde_json::json!({"cases": cases.len(), "units": units.len(),
-                    "split_points": cases.iter().map(|c| c.1 - 1).sum::<u64>()})
+                serde_json::json!({
+                    "enumerate": {"cases": cases.iter().filter(|c| c.1 <= max_small).count(), "units": e.len(),
+                        "split_points": e.iter().map(|u| u.count).sum::<u64>()},
+                    "grid": {"cases": cases.iter().filter(|c| c.1 > max_small).count(), "units": g.len(),
+                        "split_points": g.iter().map(|u| u.count).sum::<u64>()},
+                })
             );
             0
         }
